@@ -365,7 +365,7 @@ def main(tier, seed, replay):
             break
     # end to end (tracking on): MutateTickReceived fires exactly once, when every message of the tick was applied
     import corelib
-    e2e = corelib.track_e2e(PID, seed, 100 if quick else 2000, verdict)
+    e2e = corelib.track_e2e(PID, seed, 100 if quick else 800, verdict)
     apa = None if quick else apalache_inductive(verdict, wd)
     coverage = {
         "end_to_end_tracking": e2e,
